@@ -151,6 +151,15 @@ Theorem C20_unpickled_accepts_registration : forall body cbf eff P t k v,
 Proof. exact unpickled_accepts_registration. Qed.
 Print Assumptions C20_unpickled_accepts_registration.
 
+(** The theorems above hold for every amount of fuel; with [fuel_for t] (what the correspondence
+    runs use) no run ends for lack of fuel, so they speak about actual values and failures. *)
+Theorem C20_model_runs_never_out_of_fuel : forall body cbf eff t o,
+  eval body cbf eff (fuel_for t) t o <> Fail FFuel /\
+  keys body cbf eff (fuel_for t) t o <> Fail FFuel /\
+  valid body cbf eff (fuel_for t) t o <> Fail FFuel.
+Proof. exact fuel_for_is_enough. Qed.
+Print Assumptions C20_model_runs_never_out_of_fuel.
+
 (** ** Non-vacuity: a concrete graph (explicit form) with a nested overload table, pre-set and
     default options, a callback, an effect and a warm cache; a process whose [_LOCKS] already
     holds the outer id (same process) but not the inner one. *)
